@@ -6,7 +6,11 @@ import SynKitModel.NautyIR
 Mirrors `synkit/CRN/Topo/canon.py` (`CRNCanonicalizer`: `_init_part`, `_sig`, `_refine`, `_label`,
 `_search`, `_orbits_from_perms`, `_canon`) on a directed attribute graph (a *view* of a network,
 `SynKitModel/CrnCanon.lean`), for the configured `node_attr_keys` / `edge_attr_keys` (`SelD`) and
-`max_depth = None`, `timeout_sec = None` (the two early-stop tests are not modelled).
+`timeout_sec = None` (the clock test is not modelled).  `crnSearch` / `crnIr` are the search with
+`max_depth = None`; `crnSearchCapped` / `crnIrCapped` (last section) are the search with
+`max_depth = d`: depth counter, the test `depth > max_depth` at the entry of every call, the returned
+flag that ends every enclosing loop, `(best, perms)` as they stand when the search stops, and the
+`RuntimeError` of `_canon` when `best["perm"]` is still `None`.
 
 * A partition is a list of cells, every cell sorted by node id (`sorted(nodes)`, `sorted(sigs[s])`,
   `sorted(rest)`, `sorted(cell)`).  The grouping helpers (`irSplitBy`, `sortNat`, `irTargetCell`,
@@ -263,6 +267,68 @@ def crnOrbitsFromPerms (perms : List (List Nat)) : List (List Nat) :=
 
 /-- `orbits`. -/
 def crnIrOrbits (sel : SelD) (G : LGraph) : List (List Nat) := crnOrbitsFromPerms (crnIrPerms sel G)
+
+/-! ## The search with a depth cap (`max_depth = d`)
+
+`_search(…, depth, max_depth, start, timeout_sec)` returns `True` as soon as it is entered with
+`depth > max_depth` (second test of the body, after the clock test, before refining), and a caller
+that receives `True` returns `True` at once: the whole search ends at the FIRST call beyond the cap,
+`best` and `perms` keep the values they have then.  There is no pruning.  `_canon` raises
+`RuntimeError` when `best["perm"]` is `None`, and otherwise computes canonical graph, orbits and
+mappings from `best["perm"]` and `perms` as they are and hands the flag on as `early_stop`.
+(A negative `max_depth` stops the root call itself: the `RuntimeError` case; the model takes `d : Nat`.) -/
+
+/-- `_search(…, depth=depth, max_depth=d)`: the final `(best, perms)` and the returned flag.  In the
+loop over the members of the target cell the state is `(st, stopped)`: once a child returned `True` the
+loop is left (`return True`), which the fold models by passing the state through. -/
+def crnSearchCapped (lt : CrnLabel → CrnLabel → Bool) (sel : SelD) (G : LGraph) (d : Nat) :
+    Nat → Nat → List (List Nat) → List Nat → Option CrnBest → Option CrnBest × Bool
+  | 0, _, _, _, st => (st, false)
+  | fuel + 1, depth, P, pfx, st =>
+    if depth > d then (st, true)
+    else
+      let P := crnRefine sel G P
+      if irIsDiscrete P then
+        let perm := P.flatten
+        (crnUpdate lt st (crnBuildLabel sel G perm) perm, false)
+      else
+        match irTargetCell P with
+        | none => (st, false)
+        | some (pre, c, post) =>
+          (crnChildren c).foldl (fun acc v =>
+            if acc.2 then acc
+            else crnSearchCapped lt sel G d fuel (depth + 1) (irIndividualise pre c post v) (pfx ++ [v]) acc.1)
+            (st, false)
+
+/-- The search of `_canon(max_depth=d, timeout_sec=None)`: from the initial partition, empty prefix,
+`depth=0`. -/
+def crnIrCappedWith (lt : CrnLabel → CrnLabel → Bool) (sel : SelD) (G : LGraph) (d : Nat) : Option CrnBest × Bool :=
+  crnSearchCapped lt sel G d (G.nodes.length + 1) 0 (crnInitPart sel G) [] none
+
+/-- … with the concrete label order: `((best, perms), early)`. -/
+def crnIrCapped (sel : SelD) (G : LGraph) (d : Nat) : Option CrnBest × Bool := crnIrCappedWith CrnLabel.lt sel G d
+
+/-- What `_canon` raises. -/
+inductive CrnIrError
+  | notFound  -- `RuntimeError("Canonical form not found; early stop (max_depth=…, timeout_sec=…)")`
+deriving DecidableEq, Repr, Inhabited
+
+/-- Answer of `_canon(max_depth=d)` (what `summary` reports): `(best with perms, early_stop)` or the
+`RuntimeError` when no leaf was reached. -/
+def crnCanonCapped (sel : SelD) (G : LGraph) (d : Nat) : Except CrnIrError (CrnBest × Bool) :=
+  match crnIrCapped sel G d with
+  | (none, _) => .error .notFound
+  | (some b, early) => .ok (b, early)
+
+/-- Depth of a leaf = number of individualisations on its branch = `depth` of the call that reached it
+= length of its prefix. -/
+def crnLeafDepth (l : List Nat × List Nat) : Nat := l.1.length
+
+/-- The deepest of a list of leaves. -/
+def crnMaxDepth (ls : List (List Nat × List Nat)) : Nat := ls.foldl (fun m l => Nat.max m (crnLeafDepth l)) 0
+
+/-- Depth of the deepest leaf of the (uncapped) search tree. -/
+def crnDepth (sel : SelD) (G : LGraph) : Nat := crnMaxDepth (crnRootLeaves sel G)
 
 /-! ## Hypotheses of the theorems -/
 
